@@ -18,6 +18,7 @@ type cType struct {
 type cSrc struct {
 	ID     string `json:"id"`
 	Name   string `json:"name"`
+	Shared bool   `json:"shared"`
 	Fields defMap `json:"fields"`
 	Vals   valMap `json:"vals"`
 }
@@ -100,7 +101,15 @@ func newCWorld(init cState, v cVariant, seed int64) *cWorld {
 	w.col = &jsonapi.SoftCollection{}
 	w.col.SetType(softType(init.CType.Name, init.CType.Fields, w.km))
 	for _, s := range init.Srcs {
-		res := newRes(v.Impl, s.Name, s.Fields, w.km)
+		var res jsonapi.Resource
+		if s.Shared {
+			// a soft resource living on the collection's own *Type (whatever the variant)
+			sr := &jsonapi.SoftResource{}
+			sr.SetType(w.col.Type)
+			res = sr
+		} else {
+			res = newRes(v.Impl, s.Name, s.Fields, w.km)
+		}
 		res.Set("id", s.ID)
 		for f, val := range s.Vals {
 			setField(res, f, s.Fields[f], val, w.km, w.tb)
@@ -178,7 +187,11 @@ func (w *cWorld) project() (cState, cObs) {
 	for i, s := range w.srcs {
 		defs, vals := projVals(s, w.km, w.tb)
 		id, _ := s.Get("id").(string)
-		st.Srcs = append(st.Srcs, cSrc{ID: id, Name: w.defs[i].Name, Fields: defs, Vals: vals})
+		shared := false
+		if sr, ok := s.(*jsonapi.SoftResource); ok && sr.Type == w.col.Type {
+			shared = true
+		}
+		st.Srcs = append(st.Srcs, cSrc{ID: id, Name: w.defs[i].Name, Shared: shared, Fields: defs, Vals: vals})
 	}
 	return st, obs
 }
